@@ -32,6 +32,9 @@ type runner struct {
 	targets []*Target
 	// the bytes the previous marshal case produced (C05: contents of a "recycled" destination buffer)
 	recycled []byte
+	// the next marshal case holds its empty lists as empty NON-NIL slices: every nil slice / map of the Go value, and every
+	// repeated extension the value does not carry (set to an empty list through the runtime)
+	forceEmpty bool
 }
 
 func safeCall(f func()) (panicMsg string) {
@@ -264,8 +267,15 @@ func (rn *runner) marshalCase(t *Target, name string, ref *dynamicpb.Message, la
 			}
 		}()
 	}
-	if rn.r.Chance(1, 3) {
-		tweak(rn.r, reflect.ValueOf(m), 0)
+	if rn.forceEmpty || rn.r.Chance(1, 3) {
+		tweakP(rn.r, reflect.ValueOf(m), 0, rn.forceEmpty)
+	}
+	// repeated extensions the value does not carry, set to an empty non-nil list through the runtime's SetExtension — on the
+	// message and on the messages nested in it: nothing is written for them (the reference value stays what it is)
+	if len(t.Exts) > 0 && (rn.forceEmpty || rn.r.Chance(1, 3)) {
+		if set := t.emptyRepeatedExtensions(rn.r, m, rn.forceEmpty); len(set) > 0 {
+			label += " (set to an empty non-nil list through the runtime's SetExtension: " + trunc(strings.Join(set, " "), 200) + ")"
+		}
 	}
 	var nilEnt *nilMapEntry
 	if rn.r.Chance(1, 5) {
@@ -724,8 +734,77 @@ func bigPayloadMessages(md protoreflect.MessageDescriptor, yield func(label stri
 	}
 }
 
+// singleExtensionMessages: like singleFieldMessages, for the proto2 extensions of md the generated code knows: the
+// message with that extension alone — a list of 0 (nothing set), 1, 2, 3 boundary elements and of 16 / 32 / 128 (the
+// payload a packed declaration would give crosses the one-byte length limit), a singular one at four boundary values.
+func singleExtensionMessages(md protoreflect.MessageDescriptor, exts *protoregistry.Types, yield func(label string, m *dynamicpb.Message)) {
+	if md.ExtensionRanges().Len() == 0 || exts == nil {
+		return
+	}
+	var xts []protoreflect.ExtensionType
+	exts.RangeExtensionsByMessage(md.FullName(), func(xt protoreflect.ExtensionType) bool {
+		xts = append(xts, xt)
+		return true
+	})
+	sort.Slice(xts, func(i, j int) bool { return xts[i].TypeDescriptor().Number() < xts[j].TypeDescriptor().Number() })
+	base := func() *dynamicpb.Message {
+		if hasRequired(md) {
+			return minimalMessage(md)
+		}
+		return dynamicpb.NewMessage(md)
+	}
+	elem := func(xd protoreflect.FieldDescriptor, k int) protoreflect.Value {
+		if xd.Message() != nil {
+			if k%2 == 1 {
+				return protoreflect.ValueOfMessage(minimalMessage(xd.Message()))
+			}
+			return protoreflect.ValueOfMessage(filledMessage(xd.Message(), 0))
+		}
+		return boundary(xd, k)
+	}
+	for _, xt := range xts {
+		xd := xt.TypeDescriptor()
+		if xd.Kind() == protoreflect.GroupKind {
+			continue
+		}
+		if !xd.IsList() {
+			for k := 0; k < 4; k++ {
+				m := base()
+				m.Set(xd, elem(xd, k))
+				yield(fmt.Sprintf("single-extension %s #%d", xd.Name(), k), m)
+			}
+			continue
+		}
+		ns := []int{0, 1, 2, 3}
+		if xd.Message() == nil {
+			ns = append(ns, 16, 32, 128)
+		}
+		for _, n := range ns {
+			m := base()
+			if n > 0 {
+				l := m.NewField(xd).List()
+				for j := 0; j < n; j++ {
+					l.Append(elem(xd, j+n))
+				}
+				m.Set(xd, protoreflect.ValueOfList(l))
+			}
+			yield(fmt.Sprintf("single-extension %s x%d", xd.Name(), n), m)
+		}
+	}
+}
+
 func (rn *runner) singleFieldCases(t *Target, name string) {
-	singleFieldMessages(t.desc(name), false, func(label string, m *dynamicpb.Message) { rn.marshalCase(t, name, m, label) })
+	singleFieldMessages(t.desc(name), false, func(label string, m *dynamicpb.Message) {
+		// the cases that leave every list empty hold the empty lists as non-nil slices
+		rn.forceEmpty = strings.HasSuffix(label, " #0") || label == "minimal"
+		rn.marshalCase(t, name, m, label)
+		rn.forceEmpty = false
+	})
+	singleExtensionMessages(t.desc(name), t.extTypes(), func(label string, m *dynamicpb.Message) {
+		rn.forceEmpty = strings.HasSuffix(label, " x0")
+		rn.marshalCase(t, name, m, label)
+		rn.forceEmpty = false
+	})
 	if rn.prop == "C04" || rn.prop == "C05" {
 		bigPayloadMessages(t.desc(name), func(label string, m *dynamicpb.Message) { rn.marshalCase(t, name, m, label) })
 	}
